@@ -57,6 +57,24 @@ INFO = {
              "faults produced an error, an ok log result is complete.",
         note="Trusts the fake Docker client's event order (taken under its mutex) and TLC; single-fault scenarios; limit -1.",
         ref="6/C14"),
+    "C01": dict(
+        text="TLC checks the engine's log path as a state machine (offload split of selector matchers and line filters by storage "
+             "capability with barriers at line-rewriting/stateful stages, storage answer, limit guard, prefilter, pipeline with "
+             "first-reject short-circuit) against the declarative LogResult over every record set, pipeline, selector, limit and "
+             "capability set of bounded pools; every case runs through Engine.Eval over an in-memory storage under several "
+             "capability configurations together with seeded random record sets and pipelines, and TLC validates each recorded run: "
+             "bag of entries = LogResult (each matching record once, none else, original timestamp and line, final labels), the "
+             "storage's own answer being checked as an environment step.",
+        note="Stage semantics are those of Pipeline.tla/Num.tla/Regex.tla (sub-grammars for numbers, durations, byte sizes, regexes); values outside them make a scenario open (not compared).",
+        ref="6/C01"),
+    "C08": dict(
+        text="TLC checks the limit guard and groupEntries (stream map keyed by the canonical sorted+quoted label rendering) on every "
+             "small record sequence with colliding label renderings, timestamp ties and limits around the number of matches: key "
+             "injective, streams partition entries by final label set, time order per stream, first min(L,N) records; the cases and "
+             "random larger ones run through Engine.Eval and TLC validates entries against LogResult plus the partition and limit "
+             "rules on the recorded result.",
+        note="Trusts the in-memory storage fake (itself checked as an environment step) and TLC; tie-breaking at the cut and stream order left open.",
+        ref="6/C08"),
 }
 
 NOT_YET = "no check registered yet in this revision (machinery under construction; see DESIGN.md section 6 for the planned model)"
